@@ -33,6 +33,7 @@ def explore(ctx, depth):
     nrand = 150 if depth == 'quick' else 3000
     for _ in range(nrand):
         cells.append(''.join(rng.choice(CT.LEXER_ALPHABET) for _ in range(rng.randint(1, 6))))
+        cells.append(''.join(rng.choice(CT.WIDE_ALPHABET) for _ in range(rng.randint(1, 5))))
         if rng.random() < 0.5:  # mutate a corpus token
             base = rng.choice(CT.ALL)
             i = rng.randrange(len(base) + 1)
@@ -88,6 +89,51 @@ def explore(ctx, depth):
             if not same:
                 ctx.fail({'rows': rows, 'header': h, 'reference_header': HEADERS[0], 'clause': 'barlines detected identically'},
                          'measure index / barline rows differ between spine types, or import failed', impl=a, expected=b)
+
+
+    # ---- documents with several spine types side by side: the same text in every column of a row.
+    #      every node must hold what the per-cell rule says for (its own header, the cell text), whatever was parsed before it
+    kern_hdrs = ['**kern'] + HEADERS
+    ndocs2 = 10 if depth == 'quick' else 100
+    pool2 = [c for c in pool + CT.UNICODE + CT.DYNAMICS_LIKE if c and c.strip() == c]
+    docs = []
+    for d in range(ndocs2):
+        cols = rng.sample(kern_hdrs, rng.randint(2, 5))
+        rows = [rng.choice(pool2) for _ in range(rng.randint(3, 9))]
+        rows += [rng.choice(rows) for _ in range(3)]          # repeated texts
+        docs.append((cols, rows))
+    need = sorted({c for _, rows in docs for c in rows})
+    kern2 = {c: tokobs.fresh_kern(c) for c in need}
+    reqs, metas = [], []
+    for cols, rows in docs:
+        for h in cols:
+            for c in rows:
+                reqs.append({'op': 'c18.import', 'header': h, 'cell': c, 'kern': kern2[c][1]})
+                metas.append((h, c))
+    exp = {}
+    for (h, c), r in zip(metas, ctx.driver.ask(reqs)):
+        exp[(h, c)] = r
+    for cols, rows in docs:
+        text = '\n'.join(['\t'.join(cols)] + ['\t'.join([c] * len(cols)) for c in rows] + ['\t'.join(['*-'] * len(cols))]) + '\n'
+        def run():
+            doc, errs = kp.loads(text)
+            return [[tokobs.obs(n.token) for n in doc.tree.stages[2 + i]] for i in range(len(rows))]
+        got = call(run)
+        ctx.count('multi_spine_documents')
+        if 'ok' not in got:
+            ctx.fail({'columns': cols, 'rows': rows, 'clause': 'multi-spine import'}, 'import of a multi-spine document failed', impl=got)
+            continue
+        for i, c in enumerate(rows):
+            for j, h in enumerate(cols):
+                r = exp[(h, c)]
+                impl = {'ok': got['ok'][i][j]}
+                if impl['ok'].get('cls') == 'ErrorToken':
+                    impl = {'err': 'Exception'}       # the document importer wraps a raising import_token into an ErrorToken
+                model = r['model'] if 'ok' in r['model'] else {'err': 'Exception'}
+                spec = r['spec'] if h != '**kern' else None
+                ctx.check({'columns': cols, 'row': i, 'column': j, 'header': h, 'cell': c, 'previous_rows': rows[:i]}, impl, model, spec,
+                          nontrivial=kern2[c][1] is not None,
+                          what='inside a multi-spine document a cell is not imported as its own spine type imports that text')
 
 
 def replay(ctx, payload):
